@@ -69,7 +69,7 @@ package actions
 // retention (now + message_ttl) and is immediately deliverable; nothing else changes.
 //@ func (*SeekSubscriptionToTime).Execute(a, ctx, tx) (err)
 //@   property C13
-//@   uses tables
+//@   uses tables notifyspec
 //@   requires a != nil && tx != nil
 //@   ensures target: err == nil ==> a.params.ID != nil && subscriptions.exists(deref(a.params.ID)) && subscriptions.deleted_at$null(deref(a.params.ID)) &&
 //@             (old(a.params.ID) != nil ==> deref(a.params.ID) == old(deref(a.params.ID))) &&
@@ -85,7 +85,8 @@ package actions
 //@             !(old(deliveries.exists(d)) && old(deliveries.subscription_id(d)) == deref(a.params.ID) && old(deliveries.expires_at(d)) >= now) ==> delivery_unchanged(d)
 //@   ensures [C02] other_subscriptions: err == nil ==> (forall d Id :: old(deliveries.subscription_id(d)) != deref(a.params.ID) ==> delivery_unchanged(d))
 //@   ensures no_swallowed_failure: [C09] dbfailed() && !old(dbfailed()) ==> err != nil
-//@   modifies T:deliveries:completed_at, T:deliveries:completed_at$null, T:deliveries:expires_at, T:deliveries:attempt_at, S:dbfailed, F:actions.SeekSubscriptionToTime:*, F:actions.seekSubscriptionToTimeResults:*
+//@   ensures wakes: [C10] err == nil ==> (forall d Id :: deliveries.completed_at$null(d) != old(deliveries.completed_at$null(d)) ==> wake_on_commit(deref(a.params.ID)))
+//@   modifies T:deliveries:completed_at, T:deliveries:completed_at$null, T:deliveries:expires_at, T:deliveries:attempt_at, S:dbfailed, S:wake_on_commit, F:actions.SeekSubscriptionToTime:*, F:actions.seekSubscriptionToTimeResults:*
 
 // Modification listeners are a separate registry; waking them does not touch tables or publish waiters' ghost.
 //@ func WakeTopicListeners(onlyInternal, topicID, topicName)
